@@ -128,7 +128,8 @@ impl<'a> ArxmlLexer<'a> {
         debug_assert!(endpos > self.bufpos + 1);
         debug_assert!(self.buffer[self.bufpos] == b'<');
 
-        if self.buffer[endpos - 1] != b'?' {
+        // the shortest possible processing instruction is "<??>"; in "<?>" the same '?' would be used as start and end
+        if endpos < self.bufpos + 3 || self.buffer[endpos - 1] != b'?' {
             return Some(Err(self.error(ArxmlLexerError::InvalidProcessingInstruction)));
         }
 
